@@ -80,7 +80,7 @@ pub fn pythonic_index_isize<T>(xs: &[T], n: isize) -> NRes<usize> {
         return Ok(n as usize);
     }
 
-    let i2 = (n + (xs.len() as isize)) as usize;
+    let i2 = n.wrapping_add(xs.len() as isize) as usize;
     if i2 < xs.len() {
         return Ok(i2);
     }
